@@ -1,7 +1,11 @@
 import MythVerif.Model.JcArith
+import MythVerif.Model.JoinCounter
 import Driver.Util
-/-! `drv_jc`: join-counter model behind the line protocol of the harnesses.  Arithmetic lines only
-    for now (harness/jc_arith.c):
+/-! `drv_jc`: join-counter model behind the line protocol of the harnesses.
+
+    `drv_jc trace`  : trace acceptor (see `Driver.Jc.Trace` below) for controller traces of
+                      harness/progs/jc_prog.c
+    `drv_jc`        : arithmetic lines (harness/jc_arith.c), one answer per line:
 
     jcbits N        -> "bits mask"                 (calc_bits / state_mask of init)
     jcdec N S       -> "excess" | "S' decs waiters wake"   (one dec on state word S)
@@ -31,7 +35,119 @@ def handle (line : String) : String :=
     | _, _ => "bad-op"
   | _ => "bad-op"
 
-def run (_args : List String) : IO UInt32 := do
+/-! ### trace acceptor
+Replays a controller trace of a whole-library run on the join-counter model: every event on a
+join counter must be an enabled model step of that thread with the same observed value (word read,
+CAS outcome, thread dequeued / pushed).  Objects are declared by `obj <name> jc <N>` lines;
+events on other objects are skipped. -/
+namespace Trace
+open MythVerif MythVerif.JoinCounter
+
+structure Obj where
+  name : String
+  n : Nat
+  st : St
+
+structure Acc where
+  objs : List Obj := []
+  line : Nat := 0
+  accepted : Nat := 0
+  waitCasFail : Nat := 0
+  decCasFail : Nat := 0
+  spins : Nat := 0
+  immediate : Nat := 0      -- waits that returned without blocking
+  blocked : Nat := 0        -- waits that announced themselves
+  err : Option String := none
+
+def showPc : PC → String
+  | .idle => "idle" | .wretry => "wretry" | .wr v => s!"wr{v}" | .ann => "ann" | .annSw => "annSw"
+  | .asleep => "asleep" | .woken => "woken" | .afail => "afail" | .dretry => "dretry" | .dr v => s!"dr{v}"
+  | .dexit => "dexit" | .ddeq k acc => s!"ddeq {k} {acc}" | .dpush rem => s!"dpush {rem}"
+
+def relevant (pt : String) : Bool :=
+  pt.startsWith "JC_" || pt == "BLOCK_BEGIN" || pt == "BLOCK_CB_BEGIN" || pt == "BLOCK_CB_ENQ" ||
+  pt == "BLOCK_CB_END" || pt == "SPIN_WAKE_DEQ" || pt == "WAKE_DEQ" || pt == "WAKE_PUSH"
+
+inductive Act where
+  | step (l : Lbl)
+  | check (ok : Bool) (what : String)
+  | bad (why : String)
+
+def interp (o : Obj) (e : Driver.Ev) : Act :=
+  let tb := Driver.parseTag e.b
+  match e.pt, e.cur with
+  | "JC_WAIT_READ", some t => .step (.waitRead t e.v.toNat)
+  | "JC_WAIT_RETURN", some t => .check (o.st.pc t == .idle) s!"t{t} has just returned from wait"
+  | "JC_WAIT_CAS", some t => .step (.waitCas t (e.v == 1))
+  | "JC_DEC_READ", some t => .step (.decRead t e.v.toNat)
+  | "JC_DEC_CAS", some t => .step (.decCas t (e.v == 1))
+  | "BLOCK_BEGIN", _ => match tb with
+      | some t => .step (.blockBegin t)
+      | none => .bad "no thread"
+  | "BLOCK_CB_BEGIN", _ => match tb with
+      | some t => .check (o.st.pc t == .annSw) s!"callback of t{t} starts with its context saved"
+      | none => .bad "no thread"
+  | "BLOCK_CB_ENQ", _ => match tb with
+      | some t => .step (.cbEnq t)
+      | none => .bad "no thread"
+  | "BLOCK_CB_END", _ => .check true ""
+  | "SPIN_WAKE_DEQ", some t => .step (.wakeSpin t)
+  | "WAKE_DEQ", some t => match tb with
+      | some x => .step (.wakeDeq t x)
+      | none => .bad "no thread"
+  | "WAKE_PUSH", some t => match tb with
+      | some x => .step (.wakePush t x)
+      | none => .bad "no thread"
+  | _, _ => .bad "cannot attribute the event to a thread"
+
+def feed (acc : Acc) (line : String) : Acc :=
+  if acc.err.isSome then acc else
+  let acc := { acc with line := acc.line + 1 }
+  match Driver.words line with
+  | ["obj", name, "jc", n] => { acc with objs := { name := name, n := n.toNat?.getD 0, st := init } :: acc.objs }
+  | _ =>
+  match Driver.parseEv line with
+  | none => acc
+  | some e =>
+    if !relevant e.pt then acc else
+    match acc.objs.find? (·.name == e.a) with
+    | none => acc      -- an object this acceptor does not own
+    | some o =>
+      let put (o' : Obj) (a : Acc) : Acc :=
+        { a with objs := a.objs.map (fun p => if p.name == o'.name then o' else p), accepted := a.accepted + 1 }
+      let diag := s!"state={o.st.state} decs={decsOf o.n o.st.state} waiters={waitersOf o.n o.st.state} q={o.st.q} N={o.n}"
+      match interp o e with
+      | .bad why => { acc with err := some s!"MISMATCH line {acc.line}: `{line.trimAscii.toString}`: {why}" }
+      | .check ok what =>
+          if ok then put o acc
+          else { acc with err := some s!"MISMATCH line {acc.line}: `{line.trimAscii.toString}`: model does not have: {what}; {diag}" }
+      | .step l =>
+          match step o.n o.st l with
+          | some st' =>
+              let acc := put { o with st := st' } acc
+              let acc := if e.pt == "JC_WAIT_CAS" && e.v != 1 then { acc with waitCasFail := acc.waitCasFail + 1 } else acc
+              let acc := if e.pt == "JC_WAIT_CAS" && e.v == 1 then { acc with blocked := acc.blocked + 1 } else acc
+              let acc := if e.pt == "JC_DEC_CAS" && e.v != 1 then { acc with decCasFail := acc.decCasFail + 1 } else acc
+              let acc := if e.pt == "SPIN_WAKE_DEQ" then { acc with spins := acc.spins + 1 } else acc
+              let acc := if e.pt == "JC_WAIT_READ" && st'.pc l.actor == .idle && o.st.pc l.actor != .woken then
+                           { acc with immediate := acc.immediate + 1 } else acc
+              acc
+          | none =>
+              { acc with err := some s!"MISMATCH line {acc.line}: model cannot do `{line.trimAscii.toString}`: {diag} pc[actor]={showPc (o.st.pc l.actor)}" }
+
+def run : IO UInt32 := do
+  let stdin ← IO.getStdin
+  let acc ← Driver.forLines stdin ({} : Acc) fun a line => pure (feed a line)
+  match acc.err with
+  | some e => IO.println e; return 0
+  | none =>
+    IO.println s!"accepted {acc.accepted} wait_cas_fail={acc.waitCasFail} dec_cas_fail={acc.decCasFail} deq_spins={acc.spins} waits_immediate={acc.immediate} waits_blocked={acc.blocked}"
+    return 0
+
+end Trace
+
+def run (args : List String) : IO UInt32 := do
+  if args.contains "trace" then return (← Trace.run)
   let stdin ← IO.getStdin
   let _ ← Driver.forLines stdin () fun _ line => do
     IO.println (handle line)
